@@ -60,7 +60,11 @@ class Prop:
                 im = impl.get(c["id"])
                 mo, sp = model.get(c["id"], (None, None))
                 try:
-                    corr_ok, prop_ok, detail = self.compare(c, im, mo, sp)
+                    if isinstance(im, dict) and im.get("class") == "not-run":
+                        # the run stopped after too many process deaths: this case says nothing (the deaths decide the check)
+                        corr_ok, prop_ok, detail = True, None, "not run: " + str(im.get("msg"))
+                    else:
+                        corr_ok, prop_ok, detail = self.compare(c, im, mo, sp)
                 except Exception as e:  # a comparator crash must not look like a pass
                     corr_ok, prop_ok, detail = False, None, "comparator error: %r" % (e,)
                 results.append({"case": c, "impl": im, "model": mo, "spec": sp, "corr_ok": corr_ok, "prop_ok": prop_ok,
@@ -281,6 +285,27 @@ class C06(RenderProp):
     def nontrivial(self, case, impl):
         return case.get("depth", 0) >= 3 and not case.get("_declined")
 
+    def compare(self, case, impl, model, spec):
+        # an element written with explicit self-closing syntax (`path/`) and not in the void table may be serialised <path/> (pug.js)
+        # or <path></path> (this engine): the same empty element either way; <path> alone is neither
+        sc = set()
+
+        def walk(x):
+            if isinstance(x, dict):
+                if x.get("t") == "tag" and x.get("sc"):
+                    sc.add(x["name"])
+                for v in x.values():
+                    walk(v)
+            elif isinstance(x, list):
+                for v in x:
+                    walk(v)
+        walk(case.get("doc"))
+        if sc and isinstance(impl, dict) and isinstance(impl.get("out"), str):
+            import re
+            impl = dict(impl)
+            impl["out"] = re.sub(r"<(%s)((?:\s[^<>]*?)?)\s*/>" % "|".join(re.escape(t) for t in sorted(sc)), r"<\1\2></\1>", impl["out"])
+        return super().compare(case, impl, model, spec)
+
 
 def html_escape5(s):
     return s.replace("&", "&amp;").replace("<", "&lt;").replace(">", "&gt;").replace('"', "&#34;").replace("'", "&#39;")
@@ -342,7 +367,7 @@ class C04(RenderProp):
         return corr, prop, detail
 
     def nontrivial(self, case, impl):
-        return any(c in case["subst"]["hostile"] for c in "&<>\"'") and not case.get("_declined")
+        return any(c in case["data"]["h"] for c in "&<>\"'") and not case.get("_declined")
 
 
 class C05(RenderProp):
@@ -565,7 +590,10 @@ class C08(Prop):
             im, rc = impl.get(c["id"]), race.get(c["id"])
             mo = model.get(c["id"], (None, None))[0]
             corr, prop, detail = True, True, []
-            if not isinstance(im, dict) or im.get("class") != "ok" or not isinstance(rc, dict):
+            if (isinstance(im, dict) and im.get("class") == "not-run") or (isinstance(rc, dict) and rc.get("class") == "not-run"):
+                corr, prop = True, None
+                detail.append("not run (death budget exhausted)")
+            elif not isinstance(im, dict) or im.get("class") != "ok" or not isinstance(rc, dict):
                 corr, prop = False, False
                 detail.append("harness failure: %r / %r" % (im, rc))
             else:
@@ -696,7 +724,8 @@ class C19(Prop):
     id = "C19"
     n_quick = 3000
     n_thorough = 60000
-    required_theorems = ["C19_clean_rooted", "C19_contained", "C19_serve_inside", "C19_no_dir", "C19_cors", "C19_shape"]
+    required_theorems = ["C19_clean_rooted", "C19_contained", "C19_serve_inside", "C19_no_dir", "C19_cors", "C19_shape", "C19_open_refuses_directories",
+                         "C19_open_serves_only_regular"]
     rule = ("requests to the handler that Module.Configure registers on Module.DefaultMux (httptest, scratch working directory with frontend/dist, directories, and canary "
             "files outside dist incl. prefix siblings dist.txt / distx/): paths from dot segments, encoded dots/separators/NUL, backslashes, doubled prefixes, /assets/ fragments, "
             "directories with and without slash, index.html, missing files, through the mux and directly at the handler (bypassing the mux's own cleaning); Origin values "
